@@ -121,7 +121,10 @@ func openStorage(dir string, opt Options) (*storage, error) {
 	if s.log, err = log.Open(filepath.Join(dir, "log"), 0700, logOpt); err != nil {
 		return nil, err
 	}
-	resetLog := s.log.LastIndex() < s.snaps.index
+	// the log is usable only if it continues the snapshot: it must neither
+	// end below the snapshot nor start beyond it (segments partly removed
+	// by an interrupted reset)
+	resetLog := s.log.LastIndex() < s.snaps.index || s.log.PrevIndex() > s.snaps.index
 	if !resetLog && s.log.Contains(s.snaps.index) {
 		// the log is kept only if it holds the snapshot's last entry
 		// (same rule as in onInstallSnapRequest)
@@ -137,8 +140,8 @@ func openStorage(dir string, opt Options) (*storage, error) {
 	}
 	if resetLog {
 		// a snapshot was installed, but the process died before the log,
-		// which ends below the snapshot or conflicts with it, was reset.
-		// finish that now
+		// which ends below the snapshot, conflicts with it or was only
+		// partly removed, was reset. finish that now
 		if err = s.log.Reset(s.snaps.index); err != nil {
 			return nil, opError(err, "Log.Reset(%d)", s.snaps.index)
 		}
